@@ -40,8 +40,11 @@ def reanchor(facts):
         if a in facts.bodies:
             continue
         crate, tail = _tail(a)
+        # an inherent impl block written in another module prints as `crate::module::<impl crate::home::Type>::name`
+        def parts(p):
+            return p.replace("<impl ", "").replace(">::", "::").split("::")
         cands = [b for p, b in facts.bodies.items() if b.kind == "fn" and p.split("::")[0] == crate
-                 and tuple(p.split("::")[-len(tail):]) == tail]
+                 and tuple(parts(p)[-len(tail):]) == tail]
         # a method keeps its type: `{impl#0}::name` paths print as Type::name already
         if len(cands) != 1:
             continue
